@@ -511,6 +511,8 @@ class Check:
                     want["is_empty"] = "true" if ov.get("size", st.st_size) == 0 else "false"
                 for k, w in want.items():
                     w = lossy(w)
+                    if k == "abspath" and statmod.S_ISLNK(st.st_mode) and got[k] == lossy(os.path.join(sb.root, path)):
+                        continue  # a link's absolute location may be given as its own (unresolved) as well as its target's
                     if got[k] != w:
                         kind = "overlay" if (k in ("size", "uid", "gid", "inode", "hardlinks", "blocks", "modified", "user", "group") and ov) else "real"
                         viols.append(Violation(PROP, "C04.meta", ["C04.meta", k, nm[path]["type"]],
